@@ -168,6 +168,36 @@ def r05_6(ctx):
         ctx.require(bad is None and touches >= 4 and len(locks) == 1, 'R05.6', f'lock[{inst}]', w,
                     f'parser/tokenizer code runs without the lock created by __init__ being held (event {bad!r:.200}; {touches} parser steps, '
                     f'{len(locks)} lock fields)', construct=f'{cls.qname}::put_bytes::lock')
+    # iterating the queue hands the messages out first-in first-out as well (it blocks when nothing is left, so the loop
+    # leaves after the two that are there)
+    from ..model import FuncInfo as FI, add_parents
+    src = ("def probe(q):\n"
+           "    got = []\n"
+           "    for m in q:\n"
+           "        got.append(m)\n"
+           "        if len(got) == 2:\n"
+           "            break\n"
+           "    return got, q.poll(), q.poll()\n")
+    tree = ast.parse(src)
+    add_parents(tree)
+    probe = FI('probe', cls.module, tree.body[0])
+
+    def thunk_it():
+        pq = ai.apply(ClassRef(cls), [], {}, None)
+        call(pq, 'put_bytes', AList(stream[:10], 'list'))       # note_on, clock, note_off (+ an open sysex)
+        return ai.call_function(probe, [pq], {})
+    outs = ai.explore(thunk_it)
+    o_, itf = ctx.p.lookup_method(cls, '__iter__')
+    wi = ctx.where(itf) if itf is not None else w
+    ok = len(outs) == 1 and outs[0].kind == 'return'
+    why = f'{outs}'
+    if ok:
+        v = outs[0].value
+        parts = list(v.items) if isinstance(v, AList) else list(v)
+        got = list(parts[0].items) if isinstance(parts[0], AList) else list(parts[0])
+        ok = len(got) == 2 and same(got[0], want[0]) and same(got[1], want[1]) and same(parts[1], want[3]) and parts[2] is None
+        why = f'for m in queue (two steps) gives {got!r}, then poll() gives {parts[1]!r} and {parts[2]!r}; expected note_on, clock, then note_off, then None'
+    ctx.require(ok, 'R05.6', 'for m in ParserQueue: ... (two messages), poll, poll', wi, why, construct=f'{cls.qname}::__iter__')
     for q in ai.inlined:
         ctx.functions.add(q)
     ctx.floor('R05.6', 3, 3)
